@@ -488,6 +488,7 @@ package smtp
 //@   ensures every-recipient-has-a-channel: forall i :: 0 <= i && i < len(c.recipients) ==> has(status.statusMap, c.recipients[i]) && status.statusMap[c.recipients[i]] != nil
 //@   ensures @C13 slot-i-is-the-channel-of-recipient-i: forall i :: 0 <= i && i < len(c.recipients) ==> status.status[i] == status.statusMap[c.recipients[i]]
 //@   ensures @C13 channels-are-new-and-empty: forall a: string :: has(status.statusMap, a) ==> status.statusMap[a] != nil && !wasalloc(status.statusMap[a]) && alloc(status.statusMap[a]) && len(status.statusMap[a]) == 0 && cap(status.statusMap[a]) >= 1
+//@   ensures @C13 a-channel-holds-as-many-statuses-as-its-address-occurs-among-the-recipients: forall a: string :: has(status.statusMap, a) ==> cap(status.statusMap[a]) == occ(elemsOf(c.recipients), offOf(c.recipients), a, len(c.recipients))
 //@   ensures @C13 different-recipients-have-different-channels: forall a: string :: forall b: string :: has(status.statusMap, a) && has(status.statusMap, b) && a != b ==> status.statusMap[a] != status.statusMap[b]
 //@   loop 1:
 //@     invariant rcptCounts != nil && status != nil && !wasalloc(status) && !wasalloc(rcptCounts) && status.statusMap != nil && !wasalloc(status.statusMap) && status.statusMap != rcptCounts
@@ -495,6 +496,7 @@ package smtp
 //@     invariant forall j :: 0 <= j && j <= rangeindex ==> has(rcptCounts, c.recipients[j])
 //@     invariant rangeindex < len(c.recipients) && (forall a: string :: has(rcptCounts, a) ==> 1 <= rcptCounts[a] && rcptCounts[a] <= rangeindex + 1)
 //@     invariant forall a: string :: !has(status.statusMap, a)
+//@     invariant @C13 counted-so-far: forall a: string :: (has(rcptCounts, a) ==> rcptCounts[a] == occ(elemsOf(c.recipients), offOf(c.recipients), a, rangeindex + 1)) && (!has(rcptCounts, a) ==> occ(elemsOf(c.recipients), offOf(c.recipients), a, rangeindex + 1) == 0)
 //@   loop 2:
 //@     invariant rcptCounts != nil && status != nil && !wasalloc(status) && !wasalloc(rcptCounts) && status.statusMap != nil && !wasalloc(status.statusMap) && status.statusMap != rcptCounts
 //@     invariant len(status.status) == 0 && cap(status.status) == len(c.recipients) && !wasalloc(status.status)
@@ -503,9 +505,12 @@ package smtp
 //@     invariant forall a: string :: has(status.statusMap, a) ==> itvisited(a) && status.statusMap[a] != nil && !wasalloc(status.statusMap[a]) && alloc(status.statusMap[a]) && len(status.statusMap[a]) == 0 && cap(status.statusMap[a]) >= 1
 //@     invariant forall a: string :: forall b: string :: has(status.statusMap, a) && has(status.statusMap, b) && a != b ==> status.statusMap[a] != status.statusMap[b]
 //@     invariant forall a: string :: has(rcptCounts, a) ==> rcptCounts[a] >= 1
+//@     invariant @C13 counts-are-the-occurrences: forall a: string :: has(rcptCounts, a) ==> rcptCounts[a] == occ(elemsOf(c.recipients), offOf(c.recipients), a, len(c.recipients))
+//@     invariant @C13 capacity-is-the-count: forall a: string :: has(status.statusMap, a) ==> has(rcptCounts, a) && cap(status.statusMap[a]) == rcptCounts[a]
 //@   loop 3:
 //@     invariant forall a: string :: has(status.statusMap, a) ==> status.statusMap[a] != nil && !wasalloc(status.statusMap[a]) && len(status.statusMap[a]) == 0 && cap(status.statusMap[a]) >= 1
 //@     invariant forall a: string :: forall b: string :: has(status.statusMap, a) && has(status.statusMap, b) && a != b ==> status.statusMap[a] != status.statusMap[b]
+//@     invariant @C13 capacity-is-the-number-of-occurrences: forall a: string :: has(status.statusMap, a) ==> cap(status.statusMap[a]) == occ(elemsOf(c.recipients), offOf(c.recipients), a, len(c.recipients))
 //@     invariant forall j :: 0 <= j && j <= rangeindex ==> status.status[j] == status.statusMap[c.recipients[j]]
 //@     invariant status != nil && !wasalloc(status) && status.statusMap != nil && !wasalloc(status.status)
 //@     invariant forall j :: 0 <= j && j < len(c.recipients) ==> has(status.statusMap, c.recipients[j]) && status.statusMap[c.recipients[j]] != nil
